@@ -58,6 +58,21 @@ def run_prop(args, prop, repo, reg, timeout_ms, known, seed):
     return summarize(args, prop, results, reg, known, kmap, seed, time.time() - t0, timeout_ms)
 
 
+def changed_functions(repo_dir, b_unit):
+    """names of the functions (unit + inlined, as recorded in the baseline) whose AST differs from the baseline's"""
+    import ast
+    import hashlib
+    from pyvc import main as M
+    repo, _ = M.setup(repo_dir)
+    out = []
+    for qn, h in sorted((b_unit.get("fn_hashes") or {}).items()):
+        fi = repo.funcs.get(qn)
+        cur = hashlib.sha256(ast.dump(fi.node).encode()).hexdigest()[:16] if fi is not None else None
+        if cur != h:
+            out.append(qn)
+    return out
+
+
 def _child(jobs, conn):
     from pyvc import main as M
     out = []
@@ -154,6 +169,18 @@ def summarize(args, prop, results, reg, known, kmap, seed, wall, timeout_ms):
             crashed.append((r["name"], r["message"]))
             continue
         if r["status"] == "undecided":
+            b_unit = baseline.get(r["name"])
+            changed = changed_functions(args.repo, b_unit) if (b_unit and "unsupported construct" in (r.get("message") or "")) else []
+            if changed and b_unit.get("discharged"):
+                # the unit verified completely for the recorded source; a function it is generated from has been changed
+                # and the result is code this unit's contract can no longer be checked against: every clause of the unit is
+                # an obligation that was discharged before and is not discharged now
+                violations.append(dict(name=r["name"] + "/*", clause="*", unit=r["name"], witness=None, harness=None, model=None,
+                                       kind="unverifiable-after-change",
+                                       meta=dict(text="all %d clauses of this unit were discharged for the baseline source; the "
+                                                      "changed source (%s) can no longer be verified against the contract: %s"
+                                                      % (len(b_unit["discharged"]), ", ".join(changed), r.get("message")))))
+                continue
             undecided.append((r["name"], r["message"]))
             continue
         if r["kind"] == "bounded":
@@ -189,7 +216,7 @@ def summarize(args, prop, results, reg, known, kmap, seed, wall, timeout_ms):
             if not r["obligations"]:
                 crashed.append((r["name"], "unit generated zero obligations"))
         if r["kind"] == "unit":
-            new_base[r["name"]] = dict(fingerprint=r.get("fingerprint"),
+            new_base[r["name"]] = dict(fingerprint=r.get("fingerprint"), fn_hashes=r.get("fn_hashes"),
                                        discharged=sorted({o["name"] for o in r["obligations"]} -
                                                          {o["name"] for o in r["obligations"] if o["verdict"] != "unsat"}))
         b_unit = baseline.get(r["name"]) if r["kind"] == "unit" else None
